@@ -12,16 +12,24 @@ CASE_START = ("m", "layout")
 MANIFEST = dict(
     text="Lean 4 theorems over a fault-explicit, code-shaped model of every matches_response (EthernetII, Dot3, Dot1Q, IP, "
          "IPv6 with the extension-header walk, TCP, UDP, ICMP, ICMPv6, DNS, BootP/DHCP, DHCPv6, RadioTap, Loopback, ARP, "
-         "RawPDU, PDU default, PDUCacher): no read outside the buffer for any stack and any buffer; the model refines a "
-         "byte-level specification of 'mirrored reply / stranger' for every buffer; the mirrored reply is accepted and a "
-         "packet differing in a matched field is rejected.  Tied to the code by differential correspondence on the real "
-         "objects (requests built through the public API and serialised; replies = libtins-serialised mirrors, single-field "
-         "perturbations, truncations to every length, option / extension-header variants, ICMP errors, random bytes; the "
-         "buffer is an exact-size heap block under ASan/UBSan) and by the spec oracle evaluated on the implementation's output.",
+         "RawPDU, PDU default (SLL, LLC, ...), PDUCacher): no read outside the buffer for any stack and any buffer; the model "
+         "refines a byte-level specification of 'mirrored reply / stranger' for every buffer and every request over "
+         "{Ethernet II, 802.3, 802.1Q nested any number of times, loopback, RadioTap} / {IPv4, IPv6} / {TCP, UDP + payload, "
+         "DNS, BootP/DHCP, DHCPv6, ICMP echo/timestamp/mask, ICMPv6 echo} and ARP; every mirrored reply is accepted whatever "
+         "its unmatched fields, IPv4/TCP option lists, chain of IPv6 hop-by-hop/routing/first-fragment/destination-options/"
+         "mobility headers, TCP flags and payload are (mirrored_reply_accepted); an ICMP destination unreachable quoting the "
+         "request's IPv4 header is accepted (unreachable_quoting_accepted); a packet differing in a matched field is rejected "
+         "(stranger_rejected).  Tied to the code by differential correspondence on the real objects (requests built through "
+         "the public API and serialised; replies = libtins-serialised mirrors, every matched field perturbed octet by octet "
+         "and replaced by boundary values, truncations to every length, option / extension-header chains and the edges of the "
+         "walk, ICMP errors, random bytes; the buffer is an exact-size heap block under ASan/UBSan) and by the spec oracle "
+         "evaluated on the implementation's output.",
     note="Trusted: Lean kernel + standard axioms; hand-written model tied by correspondence (harness/c14_match.cpp); "
          "header sizes / constants compared with the tree by the `layout` op; little-endian bit-field branch only; "
-         "generator coverage bounds what the tie sees.",
-    technique="Lean 4 proof (structural induction over the layer stack, refinement of a byte-level spec) + model/impl correspondence",
+         "generator coverage bounds what the tie sees.  Not matched by the code and therefore not by the specification: "
+         "BootP opcode, ARP opcode, next-protocol tags, the loopback family word in front of an inner PDU.",
+    technique="Lean 4 proof (structural induction over the layer stack, refinement of a byte-level spec, serialisation lemmas "
+              "for arbitrary option lists / extension-header chains) + model/impl correspondence",
     design="DESIGN.md §6 C14")
 MANIFEST["note"] += (" Constants and limits of the C++ source that the model restates (translator/gen_limits.py -> Gen/Limits.lean: "
                      "compiled probe + preprocessed function bodies at named anchors) are tied to the model's numerals by the "
@@ -47,7 +55,9 @@ def r_mac(rng, kind=None):
 
 
 def r_ip4(rng, kind=None):
-    kind = kind or rng.choice(["uni"] * 7 + ["multi", "bcast", "zero"])
+    kind = kind or rng.choice(["uni"] * 7 + ["multi", "bcast", "zero", "lastE"])
+    if kind == "lastE":                                      # unicast whose LAST octet looks like class D (byte-order slips)
+        return bytes([rng.choice([10, 192, 100]), rng.randrange(256), rng.randrange(256), rng.randint(224, 239)])
     if kind == "bcast":
         return bytes([255] * 4)
     if kind == "zero":
@@ -66,13 +76,15 @@ def r_ip6(rng, kind=None):
         b[0] = rng.choice([0x20, 0xfe, 0xfd, 0x00])
     elif kind == "ff02":
         b[0], b[1] = 0xff, 0x02
+        if rng.random() < 0.4:
+            b = bytearray(bytes([0xff, 0x02] + [0] * 13 + [rng.choice([1, 2])]))      # ff02::1 / ff02::2
     else:
         b[0], b[1] = 0xff, rng.choice([0x01, 0x05, 0x0e, 0x12, 0x00])
     return bytes(b)
 
 
 def r_u16(rng):
-    return rng.choice([0, 1, 0xffff, 0x0100, 0x00ff, 53, 67, 68, rng.randrange(65536), rng.randrange(65536)]).to_bytes(2, "big")
+    return rng.choice([0, 0, 1, 0xffff, 0xffff, 0x0100, 0x00ff, 53, 67, 68, rng.randrange(65536), rng.randrange(65536)]).to_bytes(2, "big")
 
 
 def l_eth(rng):
@@ -142,9 +154,10 @@ def transport(rng, v6):
     if k < 0.77:
         return [l_ports(rng, "udp")], 17                                       # UDP without a payload
     if k < 0.82:
-        return [l_ports(rng, "udp"), rng.choice(["bootp", "dhcp"]) + f":xid={hx(rng.randrange(2**32).to_bytes(4, 'big'))}"], 17
+        xid = rng.choice([0, 1, 0xffffffff, rng.randrange(2**32), rng.randrange(2**32)])
+        return [l_ports(rng, "udp"), rng.choice(["bootp", "dhcp"]) + f":xid={hx(xid.to_bytes(4, 'big'))}"], 17
     if k < 0.87:
-        t = rng.choice([1, 1, 3, 11, 12, 13])
+        t = rng.choice([1, 1, 3, 3, 5, 11, 12, 13])
         rest = [rng.randrange(256), 0, 0] if t in (12, 13) else [rng.randrange(256) for _ in range(3)]
         return [l_ports(rng, "udp"), f"dhcpv6:hdr={hx([t] + rest)}"], 17
     if k < 0.91:
@@ -168,9 +181,12 @@ CACHEABLE = ("eth", "ip", "ipv6", "udp", "tcp", "icmp", "dot1q", "dns")
 def gen_stack(rng):
     k = rng.random()
     if k < 0.04:
-        return [l_eth(rng), f"arp:spa={hx(r_ip4(rng, 'uni'))},tpa={hx(r_ip4(rng, 'uni'))}"]
+        arp = f"arp:spa={hx(r_ip4(rng, rng.choice(['uni', 'uni', 'zero', 'lastE'])))},tpa={hx(r_ip4(rng, rng.choice(['uni', 'uni', 'lastE', 'bcast'])))}"
+        return rng.choice([[l_eth(rng)], [l_eth(rng)], [l_eth(rng), l_dot1q(rng)], [l_dot3(rng)]]) + [arp]
     if k < 0.08:
-        return [l_dot3(rng)] + rng.choice([[], ["other"], [l_raw(rng)]])
+        return [l_dot3(rng)] + rng.choice([[], ["other"], [l_raw(rng)], [l_raw(rng)]])
+    if k < 0.09:
+        return ["sll"] + rng.choice([[], [l_raw(rng)], [routed(l_ip(rng, 1)), l_icmp(rng)]])
     if k < 0.10:
         return rng.choice([[l_eth(rng)], [l_eth(rng), l_raw(rng)], [l_eth(rng), l_dot1q(rng)], ["radiotap"], ["radiotap", l_raw(rng)],
                            ["radiotap", "other"], [f"loopback:family={hx(rng.choice([2, 24, 30, 26, rng.randrange(2**32)]).to_bytes(4, 'little'))}"]])
@@ -181,10 +197,12 @@ def gen_stack(rng):
     if k < 0.55:
         link = [l_eth(rng)]
     elif k < 0.75:
-        link = [l_eth(rng), l_dot1q(rng)] + ([l_dot1q(rng)] if rng.random() < 0.15 else [])
-    elif k < 0.93:
+        link = [l_eth(rng), l_dot1q(rng)] + ([l_dot1q(rng)] if rng.random() < 0.4 else [])
+    elif k < 0.80:
+        link = [l_dot3(rng)]
+    elif k < 0.92:
         link = []
-    elif k < 0.97:
+    elif k < 0.96:
         link = [f"loopback:family={hx((30 if v6 else 2).to_bytes(4, 'little'))}"]
     else:
         link = ["radiotap"]
@@ -209,7 +227,7 @@ SINGLE_CLASSES = [
     lambda r: [f"bootp:xid={hx(r.randrange(2**32).to_bytes(4, 'big'))}"], lambda r: [f"dhcp:xid={hx(r.randrange(2**32).to_bytes(4, 'big'))}"],
     lambda r: [f"dhcpv6:hdr={hx([1] + [r.randrange(256) for _ in range(3)])}"], lambda r: ["radiotap"],
     lambda r: [f"loopback:family={hx(r.choice([2, 30, r.randrange(2**32)]).to_bytes(4, 'little'))}"],
-    lambda r: [f"arp:spa={hx(r_ip4(r, 'uni'))},tpa={hx(r_ip4(r, 'uni'))}"], lambda r: [l_raw(r)], lambda r: ["other"],
+    lambda r: [f"arp:spa={hx(r_ip4(r, 'uni'))},tpa={hx(r_ip4(r, 'uni'))}"], lambda r: [l_raw(r)], lambda r: ["other"], lambda r: ["sll"],
     lambda r: ["cacher", routed(l_ip(r, 17))], lambda r: ["cacher", l_eth(r)],
 ]
 
@@ -287,6 +305,135 @@ def perturb(rng, b, off, ln):
 
 
 EXT_TYPES = [0, 43, 60, 44, 51, 135, 59, 50, 139, 6, 17, 58]
+
+# the fields the property lists as matched (every one is perturbed octet by octet and replaced by boundary values)
+MATCHED = {"eth.dst", "eth.src", "dot3.dst", "dot3.src", "dot1q.tci", "ip.src", "ip.dst", "ipv6.src", "ipv6.dst", "tcp.sp", "tcp.dp",
+           "udp.sp", "udp.dp", "icmp.type", "icmp.id", "icmp.seq", "icmpv6.type", "icmpv6.id", "icmpv6.seq", "dns.id", "bootp.xid",
+           "dhcpv6.type", "dhcpv6.xid", "arp.spa", "arp.tpa", "loopback.family"}
+
+
+def boundary_values(rng, name, old):
+    """boundary values for a matched field: broadcast / multicast / unspecified addresses, class-D look-alikes, ports 0 and 65535"""
+    ln = len(old)
+    vals = [bytes(ln), bytes([255] * ln)]
+    if name.endswith((".src", ".dst")) and ln == 6:
+        vals += [bytes([old[0] | 1]) + old[1:], bytes([0x01, 0x00, 0x5e, 0, 0, 1]), bytes([0x33, 0x33, 0, 0, 0, 1])]
+    elif ln == 4 and name.split(".")[0] in ("ip", "arp"):
+        vals += [bytes([224, 0, 0, 1]), bytes([239, 255, 255, 250]), old[:3] + bytes([rng.randint(224, 239)]),
+                 bytes([rng.randint(224, 239)]) + old[1:], old[:3] + bytes([255]), old[::-1]]
+    elif ln == 16:
+        vals += [bytes([0xff, 0x02] + [0] * 13 + [1]), bytes([0xff, 0x02] + [0] * 13 + [2]), bytes([0xff, 0x02]) + old[2:],
+                 bytes([0xff]) + old[1:], bytes(15) + bytes([1]), old[:15] + bytes([old[15] ^ 1])]
+    elif ln == 2:
+        vals += [bytes([0, 1]), bytes([0xff, 0xfe]), old[::-1], ((int.from_bytes(old, "big") + 1) % 65536).to_bytes(2, "big"),
+                 ((int.from_bytes(old, "big") - 1) % 65536).to_bytes(2, "big")]
+    elif name == "dhcpv6.type":
+        vals += [bytes([12]), bytes([13]), bytes([7]), bytes([2])]
+    elif name in ("icmp.type", "icmpv6.type"):
+        vals += [bytes([t]) for t in (0, 3, 8, 11, 14, 18, 128, 129, 1)]
+    elif ln == 3 or name == "bootp.xid":
+        vals += [old[::-1], ((int.from_bytes(old, "big") + 1) % (1 << (8 * ln))).to_bytes(ln, "big")]
+    return [v for v in vals if v != old]
+
+
+def matched_field_variants(rng, mirror, fl, quick):
+    """every matched field: one bit flipped in every octet separately, and the boundary values"""
+    out = []
+    for name, off, ln in fl:
+        if name not in MATCHED:
+            continue
+        old = bytes(mirror[off:off + ln])
+        for i in range(ln):
+            if quick and ln == 16 and i % 3 != rng.randrange(3) and i not in (0, 1, 15):
+                continue
+            m = bytearray(mirror); m[off + i] ^= 1 << rng.randrange(8)
+            out.append((f"octet:{name}", bytes(m)))
+        bv = boundary_values(rng, name, old)
+        if quick and len(bv) > 4:
+            bv = rng.sample(bv, 4)
+        for v in bv:
+            out.append((f"boundary:{name}", bytes(mirror[:off]) + v + bytes(mirror[off + ln:])))
+    return out
+
+
+def ok_chain(rng, base_nh, kinds=(0, 43, 44, 60, 135)):
+    """a well-formed chain of the extension headers the specification follows (fragment = first fragment, reserved 0)"""
+    chain = [rng.choice(kinds) for _ in range(rng.choice([1, 1, 2, 2, 3, 4, 6]))]
+    blob = bytearray()
+    for i, t in enumerate(chain):
+        nxt = chain[i + 1] if i + 1 < len(chain) else base_nh
+        if t == 44:
+            blob += bytes([nxt, 0, 0, rng.choice([0, 1, 6, 7])] + [rng.randrange(256) for _ in range(4)])
+        else:
+            units = rng.choice([0, 0, 0, 1, 2, rng.randint(0, 5), 255 if rng.random() < 0.03 else 0])
+            blob += bytes([nxt, units] + [rng.randrange(256) for _ in range((units + 1) * 8 - 2)])
+    return chain, bytes(blob)
+
+
+def v6_ok_variants(rng, state, mirror, off, n, fl):
+    """the mirrored reply behind well-formed chains (specification: accept), a matched field behind the chain perturbed
+    (reject), and the edges of the walk: chain cut one header early / a header's length one unit off / reserved octet
+    or offset of the fragment header non-zero / nothing after the last header"""
+    out = []
+    base_nh = mirror[off + 6]
+    inner = [f for f in fl if f[1] >= off + 40 and f[0] in MATCHED]
+    for _ in range(n):
+        chain, blob = ok_chain(rng, base_nh)
+        m = bytearray(mirror[:off + 40]) + blob + bytearray(mirror[off + 40:])
+        m[off + 6] = chain[0]
+        out.append(("v6chain", bytes(m)))
+        if inner:
+            name, o, ln = rng.choice(inner)
+            p = bytearray(m); p[o + len(blob) + rng.randrange(ln)] ^= 1 << rng.randrange(8)
+            out.append((f"v6chain-perturb:{name}", bytes(p)))
+        k = rng.random()
+        e = bytearray(m)
+        if k < 0.25:                                             # the first header claims one unit more / less
+            e[off + 41] = (e[off + 41] + rng.choice([1, 255])) % 256
+        elif k < 0.45:                                           # the fixed header announces the second header's type
+            e[off + 6] = blob[0]
+        elif k < 0.6:                                            # the packet ends with the last extension header
+            e = e[:off + 40 + len(blob)]
+        elif k < 0.8:                                            # the last header announces another extension header
+            pos = off + 40
+            for t in chain[:-1]:
+                pos += (e[pos + 1] + 1) * 8
+            e[pos] = rng.choice([0, 60, 43, 59, 51])
+        else:                                                    # a fragment header that is not the one of a first fragment
+            pos = off + 40
+            hit = False
+            for t in chain:
+                if t == 44:
+                    if rng.random() < 0.5:
+                        e[pos + 1] = rng.choice([1, 2, 255])     # reserved octet
+                    else:
+                        e[pos + 2] = rng.choice([0, 1, 0x80]); e[pos + 3] |= 8
+                    hit = True
+                    break
+                pos += (e[pos + 1] + 1) * 8
+            if not hit:
+                e = e[:rng.randint(off + 40, len(e))]
+        out.append(("v6chain-edge", bytes(e)))
+    return out
+
+
+def udp_len_variants(mirror, off):
+    """the UDP length field is not matched: values below the header size, and the datagram cut right behind the header"""
+    out = []
+    for v in (0, 1, 7, 8, 9, 0xffff):
+        m = bytearray(mirror); m[off + 4:off + 6] = v.to_bytes(2, "big")
+        out.append(("udplen", bytes(m)))
+        out.append(("udplen", bytes(m[:off + 8])))
+    return out
+
+
+def tcp_flag_variants(mirror, off):
+    """SYN-ACK, RST, RST-ACK, ACK, FIN-ACK, PSH-ACK, no flag, all flags: the flags are not matched"""
+    out = []
+    for fl in (0x12, 0x04, 0x14, 0x10, 0x11, 0x18, 0x00, 0xff):
+        m = bytearray(mirror); m[off + 13] = fl
+        out.append(("tcpflags", bytes(m)))
+    return out
 
 
 def v6_ext_variants(rng, mirror, off, n):
@@ -388,6 +535,7 @@ def replies_for(rng, state, mirror, req, tier_mult, others):
     for name, off, ln in fl:
         for _ in range(tier_mult):
             out.append(("perturb:" + name, perturb(rng, mirror, off, ln)))
+    out += matched_field_variants(rng, mirror, fl, tier_mult == 1)
     # two fields at once
     for _ in range(2 * tier_mult):
         if len(fl) >= 2:
@@ -412,11 +560,15 @@ def replies_for(rng, state, mirror, req, tier_mult, others):
     for name, off, kv in starts:
         if name == "ipv6" and len(mirror) >= off + 40:
             out += v6_ext_variants(rng, mirror, off, 3 * tier_mult)
+            out += v6_ok_variants(rng, state, mirror, off, 3 * tier_mult, fl)
         if name == "ip" and len(mirror) >= off + 20:
             out += ip_opt_variants(rng, mirror, off, 2 * tier_mult)
             out += unreachable_variants(rng, mirror, req, off, bytes.fromhex(kv["hdr"]), 3 * tier_mult)
         if name == "tcp" and len(mirror) >= off + 20:
             out += tcp_opt_variants(rng, mirror, off, 2 * tier_mult)
+            out += tcp_flag_variants(mirror, off)
+        if name == "udp" and len(mirror) >= off + 8:
+            out += udp_len_variants(mirror, off)
     # replies to other requests
     for o in others:
         out.append(("other-request's-mirror", o))
@@ -446,8 +598,9 @@ def classify(op, impl):
     return f"{tag}:{impl.split(' ')[0][:8]}"
 
 
-GROUPS = {"len-random": "lengths", "len-mirror": "lengths", "trunc": "trunc", "perturb": "perturb", "perturb2": "perturb",
-          "bitflip": "perturb", "random": "perturb", "v6ext": "options", "ipopt": "options", "tcpopt": "options"}
+GROUPS = {"len-random": "lengths", "len-mirror": "lengths", "len-stack": "lengths", "trunc": "trunc", "perturb": "perturb", "perturb2": "perturb",
+          "bitflip": "perturb", "random": "perturb", "v6ext": "options", "ipopt": "options", "tcpopt": "options", "tcpflags": "options", "udplen": "options",
+          "octet": "matched", "boundary": "matched", "v6chain": "v6chain", "v6chain-perturb": "v6chain", "v6chain-edge": "v6chain"}
 
 
 def group_of(op):
@@ -491,10 +644,12 @@ def build_ops(chk, exe, rng):
     for state, mirror, req in run_gen(exe, singles):
         if mirror is None:
             gen_failures.append((state, req)); continue
-        for L in range(0, 129):
-            ops.append(f"m {state} {hx(bytes(rng.randrange(256) for _ in range(L)))} #len-random")
-            base = (mirror + bytes(rng.randrange(256) for _ in range(129)))[:L]
-            if not quick or L % 2 == 0 or L < 48:
+        top = max(128, min(len(mirror), 300) + 8)                   # BootP / DHCP: beyond the 236-byte header
+        for L in range(0, top + 1):
+            if L <= 128 or not quick or L % 4 == 0 or L >= top - 16:
+                ops.append(f"m {state} {hx(bytes(rng.randrange(256) for _ in range(L)))} #len-random")
+            base = (mirror + bytes(rng.randrange(256) for _ in range(top + 1)))[:L]
+            if not quick or L % 2 == 0 or L < 48 or L >= top - 16:
                 ops.append(f"m {state} {hx(base)} #len-mirror")
     # (2) request stacks: mirrored reply, perturbations, truncations, structural variants
     n = 260 if quick else 16000
@@ -503,6 +658,28 @@ def build_ops(chk, exe, rng):
     gens = run_gen(exe, stacks)
     good = [(s, m, r) for s, m, r in gens if m is not None]
     gen_failures += [(s, r) for s, m, r in gens if m is None]
+    # (2a) the stacks the specification newly covers: every buffer length 0 .. |reply| + 8 of the mirrored reply
+    #      (for IPv6 of the mirrored reply behind a chain of extension headers), once per stack shape
+    NEW = {"bootp", "dhcp", "dhcpv6", "arp", "dot3", "loopback", "radiotap", "ipv6", "sll"}
+    seen_shapes = set()
+    for state, mirror, req in good:
+        names = tuple(n for n, _ in parse_state(state) if n != "cacher")
+        if not (NEW & set(names) or names.count("dot1q") >= 2) or names in seen_shapes:
+            continue
+        if quick and len(seen_shapes) >= 24:
+            break
+        seen_shapes.add(names)
+        base = mirror
+        if "ipv6" in names:
+            fl, starts = fields_of(state, mirror)
+            off = [o for n, o, _ in starts if n == "ipv6"][0]
+            if len(mirror) >= off + 40:
+                base = v6_ok_variants(rng, state, mirror, off, 1, fl)[0][1]
+        tail = bytes(rng.randrange(256) for _ in range(8))
+        for L in range(0, len(base) + 9):
+            if quick and len(base) > 200 and 60 < L < len(base) - 24 and L % 4:
+                continue
+            ops.append(f"m {state} {hx((base + tail)[:L])} #len-stack")
     for i, (state, mirror, req) in enumerate(good):
         others = [good[rng.randrange(len(good))][1] for _ in range(2)]
         for tag, reply in replies_for(rng, state, mirror, req, mult, others):
@@ -556,31 +733,52 @@ def run(chk):
         if not found:
             chk.violation("proof obligation no longer checks: " + p[:1500], ["theorem-or-audit-failure", p[:4000]], nofail=True)
     chk.cov["rule"] = ("one evaluation = one matches_response(ptr,len) call on a request object built through the public API and "
-                       "serialised; replies: libtins-serialised mirror, request itself, single/double field perturbations, truncations, "
-                       "IP/TCP option and IPv6 extension-header variants, ICMP errors quoting the request, other requests' mirrors, "
-                       "random bytes of every length 0..128 for every class; distinct_nontrivial = distinct (op, result) pairs")
+                       "serialised; replies: libtins-serialised mirror, request itself, every matched field perturbed octet by octet and "
+                       "replaced by boundary values (broadcast / multicast / unspecified addresses, class-D look-alikes in either byte "
+                       "order, ff02::1, ports 0 and 65535), single/double field perturbations, TCP flag variants, truncations, IP/TCP "
+                       "option variants, well-formed IPv6 extension-header chains + a matched field perturbed behind them + the edges "
+                       "of the walk, malformed chains, ICMP errors quoting the request, other requests' mirrors, random bytes and the "
+                       "(padded) mirror at every length 0..max(128, header+8) for every class, every length 0..|reply|+8 for one "
+                       "stack of every newly specified shape; distinct_nontrivial = distinct (op, result) pairs")
     chk.assumptions += [
         "little-endian bit-field branch of the headers (this platform); big-endian #if branches are not modelled",
         "total_sz passed to the matcher equals the real size of the buffer (what PacketSender::recv_match_loop passes)",
         "the request object is in its post-serialisation state (PacketSender sends before it matches); IP header_ is "
         "taken from the libtins serialisation of the request and given to the model",
-        "ICMP destination-unreachable quoting exactly the request's IPv4 header is outside the mirrored-reply relation "
-        "(specification: unspecified; libtins accepts it by design)",
         "matched fields of the specification: reply destination = request source (not matched when the request's IPv4 source is "
         "0.0.0.0), reply source = request destination unless that is a group address (Ethernet group bit, IPv4 255.255.255.255 or "
-        "224/4, IPv6 ff00::/8), both ports, ICMP/ICMPv6 reply type + identifier + sequence, DNS id, VLAN id",
-        "IPv6 replies with extension headers are outside the specification's accept/reject clauses (model + noFault + correspondence only)",
+        "224/4, IPv6 ff00::/8), both ports, ICMP/ICMPv6 reply type + identifier + sequence, DNS id, VLAN id, BootP/DHCP xid, DHCPv6 "
+        "transaction id + 'the reply is not a relay message', ARP sender/target protocol address.  A reply whose source differs "
+        "from a *group* destination is neither demanded nor forbidden (the code accepts it for the Ethernet group bit, "
+        "255.255.255.255 and ff02::/16 only)",
+        "not matched by libtins and therefore unmatched in the specification: BootP opcode, ARP opcode, TCP flags, every "
+        "next-protocol tag (a reply of another protocol / EtherType / loopback family is `unspecified`, not `reject`)",
+        "second kind of accepted reply: IPv4 / ICMP type 3 (any code) whose octets 8..27 equal the request's 20-byte header as "
+        "serialised — from any source to any destination, whatever follows; ICMP errors of other types, and ICMPv6 errors, have "
+        "no accept clause",
+        "IPv6 chains the specification follows: any sequence of hop-by-hop (0), routing (43), fragment (44), destination options "
+        "(60), mobility (135) headers, each whole and followed by at least one octet.  Restrictions taken from RFC 8200 §4.5 for "
+        "what a conforming peer sends: a fragment header has its reserved octet zero and offset 0 (first fragment).  A non-zero "
+        "reserved octet is the known finding KF-C14-5 (the code takes it for a length; the oracle evaluates such replies on "
+        "their RFC view = the octet zeroed, clause fragment_reserved_ignored).  Also outside the relation, compared "
+        "model-vs-code only: a reply that ends exactly with an extension header is not followed (loop condition total_sz > 8; "
+        "such a packet has no upper layer); no-next-header (59) is walked like an extension header; AH (51), ESP (50), HIP, "
+        "shim6 are not walked",
+        "DHCPv6 relay-forward / relay-reply *requests* have no clause (libtins never matches them: dhcpv6_matches_iff); "
+        "SLL has no matcher and cannot be sent (PDU default: rawpdu_and_default)",
     ]
     chk.trusted += ["correspondence harness harness/c14_match.cpp + generators in checks/C14.py",
                     "header sizes and protocol constants: `layout` op compares the tree's sizeof()/enums with the model's constants",
                     "g++ 12 / ASan+UBSan build of the repo's working tree; exact-size malloc block per reply buffer"]
-    chk.extra["modelled_not_proved"] = ["BootP/DHCP, DHCPv6, ARP, Loopback, RawPDU, PDU default, PDUCacher: matcher_noFault + closed-form "
-                                        "theorems + correspondence; they have no clause in the mirrored-reply specification (oracle: unspecified)",
-                                        "IPv6 replies carrying extension headers: extension walk modelled, fault-freedom and fuel bound proved, "
-                                        "correspondence on generated chains; the specification's accept/reject clauses cover replies without "
-                                        "extension headers only",
-                                        "Dot3 / RadioTap requests: refinement of the byte-level specification proved, not part of mirror_accepted's "
-                                        "request grammar"]
+    chk.extra["modelled_not_proved"] = [
+        "RawPDU, PDU default (SLL, LLC, Dot11, ...), PDUCacher, DHCPv6 relay requests, ICMPv6 router/neighbour solicitation: "
+        "matcher_noFault + closed-form theorems + correspondence; no clause in the mirrored-reply relation (oracle: unspecified)",
+        "IPv6 replies whose chain contains AH / ESP / no-next-header / a non-first or reserved-octet-set fragment header, or that "
+        "end with an extension header: walk modelled, fault-freedom and fuel bound proved, correspondence on generated chains; "
+        "the relation has no clause for them",
+        "replies of another protocol than the request's (cross-protocol confusion: no matcher compares a next-protocol tag) and "
+        "replies from a unicast source to a multicast (non-broadcast) request: model + correspondence only",
+    ]
     corr.finalize_cov(chk)
 
 
